@@ -22,8 +22,8 @@ class C25(Check):
         "the model holds valid (all the scheduler ever does), extended histories also derive from "
         "rolled-back states and are judged by a separate sub-oracle; a case is an operation "
         "history; non-trivial = it contains a rollback that invalidates something and a later "
-        "re-derivation. One case in four is a workflow-level history instead: a chain of 2-4 "
-        "handle-writing tasks (plus consumers) run 2-6 times on one backend under seeded "
+        "re-derivation. One case in four is a workflow-level history instead: a small DAG of 2-5 "
+        "handle-writing tasks (some joining two branches; plus consumers) run 2-6 times on one backend under seeded "
         "schedules while the versions of the handle-writing tasks are edited and reverted; a task "
         "whose cached result holds a handle state that the lineage model says was rolled back "
         "must execute again"
@@ -179,30 +179,59 @@ class C25(Check):
 
         out = RunOutcome()
         out.probe("workflow_histories")
-        n = 2 + ch.choice(3, "chain-length")         # handle-writing tasks load1..loadn
-        consumers = [k for k in range(1, n + 1) if ch.coin(0.5, "consumer?")]
+        # A small DAG of handle-writing steps over one handle name: step k takes one or two
+        # earlier states (two = an ordinary task joining two branches) and returns one of them.
+        n = 2 + ch.choice(4, "nsteps")
+        steps = []          # (inputs: list of state indices (0 = the initial handle), ret)
+        for k in range(1, n + 1):
+            ins = [ch.choice(k, "input")]
+            if k >= 2 and ch.coin(0.35, "join"):
+                other = ch.choice(k, "input2")
+                if other != ins[0]:
+                    ins.append(other)
+                    out.probe("join_steps")
+            steps.append((ins, ch.choice(len(ins), "returns")))
+        consumers = [k for k in range(1, n + 1) if ch.coin(0.4, "consumer?")]
+        # only what the returned value needs is ever evaluated
+        needed: set = set()
+        todo = [n] + consumers
+        while todo:
+            k = todo.pop()
+            if k == 0 or k in needed:
+                continue
+            needed.add(k)
+            todo.extend(steps[k - 1][0])
 
         def source(vers: list) -> str:
             L = [HEADER.format(ns="vp"), "from simkit.proghandle import VH\n\n"]
-            for k in range(1, n + 1):
-                L.append(f"@task(version='load{k}-v{vers[k - 1]}')\ndef load{k}(h, x):\n"
-                         f"    hit('load{k}')\n    return h\n\n")
+            for k, (ins, ret) in enumerate(steps, 1):
+                params = ", ".join(f"h{j}" for j in range(len(ins)))
+                L.append(f"@task(version='s{k}-v{vers[k - 1]}')\ndef s{k}({params}, x):\n"
+                         f"    hit('s{k}')\n    return h{ret}\n\n")
             L.append("@task(version='use')\ndef use(h, k):\n    hit('use', k)\n"
                      "    return mix('use', k)\n\n")
-            body = ["    h0 = VH('ha')"]
-            for k in range(1, n + 1):
-                body.append(f"    h{k} = load{k}(h{k - 1}, {k})")
-            items = [f"h{n}"] + [f"use(h{k}, {k})" for k in consumers]
+            body = ["    g0 = VH('ha')"]
+            for k, (ins, ret) in enumerate(steps, 1):
+                body.append(f"    g{k} = s{k}({', '.join('g%d' % i for i in ins)}, {k})")
+            items = [f"g{n}"] + [f"use(g{k}, {k})" for k in consumers]
             body.append(f"    return [{', '.join(items)}]")
             L.append("@task(version='main')\ndef t0():\n" + "\n".join(body) + "\n")
             return "".join(L)
 
+        # ---- lineage model -----------------------------------------------------------------
+        # state ids are nested tuples; a fork of state s by its c-th consumer is ("fork", s, c);
+        # the state a step writes is ("call", step, version, fork ids, ret)
+        valid: set = set()
+        cached: set = set()
+
+        def ancestors(st):
+            while st is not None and st != ("root",):
+                st = st[1] if st[0] == "fork" else st[3][st[4]]
+                yield st
+
         vers = [0] * n
         prog = RawProgram(source(vers))
         db = schedsim.fresh_db("handles-wf.db")
-        # model: a state is identified by the versions of the chain prefix that derived it
-        cached: set = set()
-        valid: set = set()
         history = []
         nexec = 2 + ch.choice(5, "nexec")
         w = None
@@ -212,7 +241,7 @@ class C25(Check):
                 if ex > 0:
                     k = ch.choice(n, "edit-which")
                     v = ch.choice(3, "edit-version")
-                    desc = f"load{k + 1}: v{vers[k]} -> v{v}"
+                    desc = f"s{k + 1}: v{vers[k]} -> v{v}"
                     if v != vers[k]:
                         out.probe("handle_task_edits")
                     vers[k] = v
@@ -228,40 +257,50 @@ class C25(Check):
                                 {"history": history, "error": repr(res.outcome[1])[:200]})
                     break
                 ran = {name for (name, _a) in proglib.HITS}
-                must, replayed = [], []
-                for k in range(1, n + 1):
-                    key = tuple(vers[:k])
-                    if key in cached and key in valid:
-                        if f"load{k}" not in ran:
-                            replayed.append(k)
-                            continue
-                    else:
+                state = {0: ("root",)}
+                uses: dict = {}
+                must = []
+                for k, (ins, ret) in enumerate(steps, 1):
+                    if k not in needed:
+                        continue
+                    forks = []
+                    for i in ins:
+                        uses[i] = uses.get(i, 0) + 1
+                        forks.append(("fork", state[i], uses[i]))
+                    key = ("call", k, vers[k - 1], tuple(forks), ret)
+                    state[k] = key
+                    executed = f"s{k}" in ran
+                    if not (key in cached and key in valid):
                         must.append(k)
-                    # (re-)executed: everything derived from its input state so far is rolled
-                    # back, then the new state is derived
-                    if f"load{k}" in ran:
-                        pref = tuple(vers[:k - 1])
-                        for st in list(valid):
-                            if len(st) >= k and st[:k - 1] == pref:
-                                valid.discard(st)
-                                out.probe("states_rolled_back")
+                    if executed:
+                        # each incoming fork is rolled back (everything derived through it so
+                        # far), then the new state is derived
+                        for f in forks:
+                            for st in list(valid):
+                                if f in ancestors(st):
+                                    valid.discard(st)
+                                    out.probe("states_rolled_back")
                         valid.add(key)
                         cached.add(key)
                 history.append({"execution": ex, "edit": desc, "versions": list(vers),
-                                "executed": sorted(x for x in ran if x.startswith("load")),
-                                "model_must_execute": [f"load{k}" for k in must]})
-                stale = [k for k in must if f"load{k}" not in ran]
+                                "executed": sorted(x for x in ran if x.startswith("s")),
+                                "model_must_execute": [f"s{k}" for k in must]})
+                stale = [k for k in must if f"s{k}" not in ran]
                 if stale:
-                    was_cached = tuple(vers[:stale[0]]) in cached
+                    k0 = stale[0]
                     out.violate("C25.invalid_state_never_replayed",
-                                "replayed-rolled-back-state" if was_cached else "replayed-unknown-state",
-                                {"history": history, "task": f"load{stale[0]}"})
+                                "replayed-rolled-back-state" if state[k0] in cached
+                                else "replayed-unknown-state",
+                                {"history": history, "task": f"s{k0}",
+                                 "steps": [(k, ins, ret) for k, (ins, ret) in enumerate(steps, 1)]})
                     break
-                if any(tuple(vers[:k]) in cached for k in must):
+                if any(state[k] in cached for k in must):
                     out.probe("reexecuted_because_state_was_rolled_back")
                     out.nontrivial = True
-        out.key = hashlib.sha256(repr(history).encode()).hexdigest()[:20]
-        out.sample = {"part": "workflow", "chain": n, "consumers": consumers, "history": history}
+        out.key = hashlib.sha256(repr((steps, history)).encode()).hexdigest()[:20]
+        out.sample = {"part": "workflow", "steps": [(k, ins, ret) for k, (ins, ret) in
+                                                      enumerate(steps, 1)],
+                      "consumers": consumers, "history": history}
         return out
 
     @staticmethod
